@@ -424,7 +424,8 @@ def c_distance_z(blk, ctx):
     r, r1, r2, e = _z_frame(blk, ctx)
     if r2 is None:
         return [float(e @ ctx.minimage(r - r1))]          # e . (r - r1)
-    rm = 0.5 * (r1 + r2)                                   # origin r_m = 1/2 (r1 + r2)
+    # origin r_m = 1/2 (r1 + r2), with r2 the periodic image closest to r1 (the engine may supply any image of either group)
+    rm = r1 + 0.5 * ctx.minimage(r2 - r1)
     return [float(e @ ctx.minimage(r - rm))]
 
 
